@@ -383,15 +383,27 @@ def propagate(f, init, transfer, branch=None):
             if names is not None:
                 cond_info[n.id] = (canon(n.ast), frozenset(names))
     kills = {}
+    consts = {}           # node id -> [(var id, var name, literal value)] : locals assigned an integer literal here
+    vnames = {x.get('id'): x.get('name') for x in walk(f.decl) if x.get('kind') in ('VarDecl', 'ParmVarDecl')}
+    from .expr import eval_int
     for n in cfg.nodes:
-        ds = {d[0] for d in node_defs(n)}
+        nd = node_defs(n)
+        ds = {d[0] for d in nd}
         if ds:
             kills[n.id] = ds
+        for (vid, rhs, kind, _l) in nd:
+            if kind in ('init', 'assign') and rhs is not None and vid in vnames:
+                v = int_value_(strip(rhs))
+                if isinstance(v, int):
+                    consts.setdefault(n.id, []).append((vid, vnames[vid], v))
     while work:
         n, (st, cf) = work.pop()
         out = transfer(n, st)
         if cf and n.id in kills:
             cf = frozenset(x for x in cf if not (x[2] & kills[n.id]))
+        if n.id in consts:
+            # must-constants of literal-valued locals: `err = ENOMEM; goto done; ... if (err != 0)` is decided
+            cf = frozenset(set(cf) | {('=K', (nm, v), frozenset([vid])) for (vid, nm, v) in consts[n.id]})
         for (s, lab) in n.succs:
             st2, cf2 = out, cf
             if lab in ('T', 'F') and n.id in cond_info:
@@ -401,6 +413,10 @@ def propagate(f, init, transfer, branch=None):
                     if known[0][1] != lab:
                         continue
                 else:
+                    env = {x[1][0]: x[1][1] for x in cf if x[0] == '=K'}
+                    tv = eval_int(n.ast, env) if env and names and all(vnames.get(v) in env for v in names) else None
+                    if tv is not None and (bool(tv) != (lab == 'T')):
+                        continue
                     cf2 = frozenset(cf | {(cc, lab, names)})
             if branch is not None and lab in ('T', 'F'):
                 st2 = branch(n, st2, lab)
@@ -1416,3 +1432,42 @@ def rule_m5(prog, rep, units, rid='M5'):
                                           'and NULL returned, which the caller reads as failure and keeps using %s'
                                           % (canon(children(x)[1])[:30], canon(children(x)[2])[:40], canon(children(x)[1])[:30]))
     rep.notes['nonzero_fields'] = {'%s.%s' % k: v for k, v in NONZERO_FIELDS.items()}
+
+
+def rule_m6(prog, rep, units, rid='M6'):
+    """free() receives the pointer the allocator returned: a local that holds an allocation and is later handed to free() is
+    never advanced (++, +=, = p + k) in between - a cursor over the block is a separate variable."""
+    from .dataflow import ReachingDefs, origins
+    rep.rule(rid, 'the pointer handed to free() is the block\'s base: a local holding an allocation is not advanced before it is freed')
+    for rel in units:
+        for f in sorted(prog.funcs_in(rel), key=lambda x: x.line or 0):
+            if f.body is None:
+                continue
+            rd = None
+            for n in f.cfg.nodes:
+                if not isinstance(n.ast, dict) or n.kind == 'macro' or n.id not in f.cfg.reachable:
+                    continue
+                for x in walk(n.ast):
+                    if x.get('kind') != 'CallExpr' or prog.callee_name(x) != 'free' or len(children(x)) < 2:
+                        continue
+                    a = strip(children(x)[1])
+                    if a.get('kind') != 'DeclRefExpr' or (a.get('_ref') or ('',))[0] != 'local':
+                        continue
+                    rd = rd or ReachingDefs(f)
+                    if n.id not in rd.IN:
+                        continue
+                    ds = rd.reaching(n.id, a['_ref'][1])
+                    fresh = any(d.kind in ('init', 'assign') and d.rhs is not None and any(
+                        t.startswith('fresh:') for t in origins(rd, d.node, d.rhs)) for d in ds)
+                    if not fresh:
+                        continue
+                    rep.instance(rid)
+                    moved = [d for d in ds if d.kind == 'update' or (d.kind == 'assign' and d.rhs is not None and
+                             strip(d.rhs).get('kind') == 'BinaryOperator' and strip(d.rhs).get('opcode') in ('+', '-') and
+                             any(y.get('kind') == 'DeclRefExpr' and (y.get('_ref') or ('', None))[1] == a['_ref'][1] for y in walk(d.rhs)))]
+                    ok = not moved
+                    rep.oblige(rid, ok, {'function': f.name, 'line': x.get('_line'), 'freed': canon(a)})
+                    if not ok:
+                        rep.violation(rid, f, x.get('_line'), 'free-moved:%s' % canon(a),
+                                      'free(%s): %s holds an allocation but is advanced at line %s before it is freed - free() then '
+                                      'receives a pointer into the middle of the block' % (canon(a), canon(a), moved[0].line))
